@@ -383,6 +383,11 @@ def corr_run(pid, cfg, bdir, binp, pkgdir, tier, seed, tag=''):
     env = {'VERIF_OUT': trace, 'VERIF_SEED': str(seed), 'VERIF_N': str(n), 'VERIF_TIER': tier,
            'VERIF_BUILD': bdir}
     env.update(cfg.get('env', {}))
+    if tag == '-search':
+        # targeted search: a property may cap its cost (search_n rounds/cases, search_env overrides)
+        env['VERIF_N'] = str(cfg.get('search_n', n))
+        env['VERIF_SEARCH'] = '1'
+        env.update(cfg.get('search_env', {}))
     tmo = cfg.get('timeout', {}).get(tier, 600 if tier == 'quick' else 3000)
     rc, out, err, dt = run_test(binp, pkgdir, 'TestVerif' + pid, env, tmo)
     res = {'harness_rc': rc, 'harness_s': dt, 'harness_out': (out + err)[-4000:], 'trace': trace,
